@@ -25,6 +25,7 @@ type Env struct {
 	R     *report.Report
 	facts map[*ssa.Function]*ir.FuncFacts
 	groles *GraphRoles
+	nroles *NodeRoles
 }
 
 func NewEnv(p *load.Program, r *report.Report) *Env {
